@@ -349,10 +349,7 @@ def execute_tasks_with_dependencies(
             future_lst, ready_flag = _get_future_objects_from_input(task_dict=task_dict)
             if len(future_lst) == 0 or ready_flag:
                 # No future objects are used in the input or all future objects are already done
-                task_dict["args"], task_dict["kwargs"] = _update_futures_in_input(
-                    args=task_dict["args"], kwargs=task_dict["kwargs"]
-                )
-                executor_queue.put(task_dict)
+                _submit_resolved_task(task_dict=task_dict, executor_queue=executor_queue)
             else:  # Otherwise add the function to the wait list
                 task_dict["future_lst"] = future_lst
                 wait_lst.append(task_dict)
@@ -443,13 +440,32 @@ def _submit_waiting_task(wait_lst: List[dict], executor_queue: queue.Queue) -> l
     for task_wait_dict in wait_lst:
         if all([future.done() for future in task_wait_dict["future_lst"]]):
             del task_wait_dict["future_lst"]
-            task_wait_dict["args"], task_wait_dict["kwargs"] = _update_futures_in_input(
-                args=task_wait_dict["args"], kwargs=task_wait_dict["kwargs"]
+            _submit_resolved_task(
+                task_dict=task_wait_dict, executor_queue=executor_queue
             )
-            executor_queue.put(task_wait_dict)
         else:
             wait_tmp_lst.append(task_wait_dict)
     return wait_tmp_lst
+
+
+def _submit_resolved_task(task_dict: dict, executor_queue: queue.Queue):
+    """
+    Replace the finished future objects in the input by their results and submit the task to the executor. If one of
+    the inputs failed or was cancelled the task cannot be executed, so its future fails with the same exception.
+
+    Args:
+        task_dict (dict): task submitted to the executor as dictionary, all future objects in the input are done
+        executor_queue (Queue): Queue of the internal executor
+    """
+    try:
+        task_dict["args"], task_dict["kwargs"] = _update_futures_in_input(
+            args=task_dict["args"], kwargs=task_dict["kwargs"]
+        )
+    except Exception as input_exception:
+        if task_dict["future"].set_running_or_notify_cancel():
+            task_dict["future"].set_exception(input_exception)
+    else:
+        executor_queue.put(task_dict)
 
 
 def _update_futures_in_input(args: tuple, kwargs: dict):
